@@ -1081,4 +1081,256 @@ theorem contains_empty_08_15 (d : C08.Entries) :
   simp [C15.contains, C08.contains]
 
 end contains
+
+/-! ## 5. `str_to_dict(s, value)` (functions.py:421-471)
+
+Lean: `C08.strToDict` / `nestList` (strings; `Lemmas.C08.nestList_eq`: the one-key-per-level dictionary
+`C08.nestPath`), `C13.single n k ks l` (slot numbers, a scalar value), `C07.single` / `C07.chain` /
+`C07.strToDict` (`Model/C07Ext.lean`: slot numbers, any value; the split of the string is C08's business).
+Outside the common domain: a key that is not in the table (`C07.single` pads the vector, `C13.single` and
+the slot view drop the key: the three agree only on keys `< n`); strings with empty or dotted parts are
+handled by C08 alone (`WFPath` is what the other two mean by a key path). -/
+
+section strToDict
+variable {β : Type}
+
+theorem getElem_eq_getSlot (l : Slots β) (i : Nat) (h : i < l.length) : l[i] = getSlot l i := by
+  simp [getSlot, List.getElem?_eq_getElem h]
+
+/-- C07's `{key: v}` (a `setSlot` into the empty vector) as C13 writes it (a map over the slot numbers) -/
+theorem single_07_range (n k : Nat) (hk : k < n) (v : Val β) :
+    C07.single n k v = (List.range n).map (fun i => if i = k then some v else none) := by
+  have hlen : (C07.single n k v).length = n := by
+    unfold C07.single
+    rw [C07.setSlot_length _ _ _ (by simpa [Val.empty] using hk)]
+    simp [Val.empty]
+  apply List.ext_getElem
+  · simp [hlen]
+  · intro i h1 h2
+    rw [getElem_eq_getSlot _ _ h1]
+    simp only [List.getElem_map, List.getElem_range]
+    by_cases e : i = k
+    · subst e; simp [C07.getSlot_single_eq]
+    · simp [e, C07.getSlot_single_ne n k i v e]
+
+/-- **str_to_dict, C13 = C07**: for keys below `n`, C13's nested one-key dictionaries are C07's chain of
+singletons ending in the scalar -/
+theorem single_13_07 (n : Nat) : ∀ (ks : List Nat) (k : Nat) (l : C13.Leaf), k < n → (∀ j ∈ ks, j < n) →
+    C13.single n k ks l = C07.single n k (C07.chain n ks (.leaf l))
+  | [], k, l, hk, _ => by rw [C13.single, C07.chain, single_07_range n k hk]
+  | k' :: ks, k, l, hk, h => by
+    rw [C13.single, C07.chain, single_07_range n k hk,
+      single_13_07 n ks k' l (h k' (by simp)) (fun j hj => h j (by simp [hj]))]
+
+variable (lf : C08.Leaf → β) (ls : List C08.Val → β) (names : List String)
+
+/-- the slot view of a one-key dictionary -/
+theorem absE_singleton (hn : names.Nodup) (k : String) (v : C08.Val) :
+    absE lf ls names [(k, v)] =
+      (List.range names.length).map (fun i => if i = names.idxOf k then some (absV lf ls names v) else none) := by
+  apply List.ext_getElem
+  · simp [absE]
+  · intro i h1 h2
+    have hi : i < names.length := by simpa [absE] using h1
+    simp only [absE, List.getElem_map, List.getElem_range, absSlot]
+    by_cases e : k = names[i]
+    · subst e
+      simp [hn.idxOf_getElem i hi]
+    · have : i ≠ names.idxOf k := by
+        intro h
+        apply e
+        have hlt : names.idxOf k < names.length := by rw [← h]; exact hi
+        have := List.getElem_idxOf hlt
+        simp only [← h] at this
+        exact this.symm
+      simp [e, this]
+
+/-- **str_to_dict, C08 → C07**: the slot view of C08's `{k1: {k2: … v}}` is C07's chain of singletons over
+the slot numbers of the keys -/
+theorem nestPath_08_07 (hn : names.Nodup) : ∀ (p : List String) (v : C08.Val), (∀ k ∈ p, k ∈ names) →
+    absV lf ls names (C08.nestPath p v) = C07.chain names.length (idx names p) (absV lf ls names v)
+  | [], v, _ => by simp [C08.nestPath, idx, C07.chain]
+  | k :: r, v, h => by
+    have hk : names.idxOf k < names.length := List.idxOf_lt_length_of_mem (h k (by simp))
+    rw [C08.nestPath, absV_dict, absE_singleton lf ls names hn, nestPath_08_07 hn r v (fun k' hk' => h k' (by simp [hk']))]
+    simp only [idx, List.map_cons, C07.chain]
+    rw [single_07_range _ _ hk]
+
+/-- **str_to_dict, C08 → C13**: the slot view (leaves by `leaf13`) of C08's nested dictionary with a scalar at
+the end is `C13.single` — for every key path, in the table or not (a key outside it is dropped on both
+sides) -/
+theorem nestPath_08_13 (hn : names.Nodup) : ∀ (ks : List String) (k : String) (a : C08.Leaf),
+    absE leaf13 (fun _ => C13.Leaf.bad) names [(k, C08.nestPath ks (.leaf a))] =
+      C13.single names.length (names.idxOf k) (idx names ks) (leaf13 a)
+  | [], k, a => by
+    rw [absE_singleton _ _ names hn, C08.nestPath, absV_leaf]
+    simp [idx, C13.single]
+  | k' :: ks, k, a => by
+    rw [absE_singleton _ _ names hn, C08.nestPath, absV_dict, nestPath_08_13 hn ks k' a]
+    simp [idx, C13.single]
+
+/-- outcomes of `str_to_dict` / `update_recursively` with a string: C08's `Except Exc Val` against
+C07Ext's `OutX` -/
+def outRelX : Except C08.Exc C08.Val → C07.OutX (Slots β) → Prop
+  | .ok (.dict es), .ok l => l = absE lf ls names es
+  | .error .lenaTypeError, .lenaTypeError => True
+  | .error .lenaValueError, .lenaValueError => True
+  | _, _ => False
+
+theorem idx_dropLast (p : List String) : (idx names p).dropLast = idx names p.dropLast := by
+  simp [idx, List.map_dropLast]
+
+/-- **str_to_dict, C08 ↔ C07** (the function, a proper key path): for the string `".".join(p)` of a key path
+`p` (non-empty, dot-free keys of the table) C08's `strToDict` and C07Ext's `strToDict` on the slot numbers
+have the same outcome, with and without `value`: the nested dictionary (in the slot view), or
+`LenaValueError` when there is no value and only one part -/
+theorem strToDict_08_07 (hn : names.Nodup) (p : List String) (hne : p ≠ []) (hw : C08.WFPath p)
+    (hk : ∀ k ∈ p, k ∈ names) (value : Option C08.Val) :
+    outRelX lf ls names (C08.strToDict (C08.joinDots p) value)
+      (C07.strToDict names.length false (idx names p) (lf (.str (p.getLastD "")))
+        (value.map (absV lf ls names))) := by
+  unfold C08.strToDict
+  rw [if_neg (C08.joinDots_ne_empty _ hne hw)]
+  simp only
+  rw [C08.splitDots_joinDots _ hne (fun k hk' => (hw k hk').2)]
+  obtain ⟨k0, r, rfl⟩ : ∃ k0 r, p = k0 :: r := by
+    cases p with
+    | nil => exact absurd rfl hne
+    | cons a b => exact ⟨a, b, rfl⟩
+  have hk0 : names.idxOf k0 < names.length := List.idxOf_lt_length_of_mem (hk k0 (by simp))
+  cases value with
+  | some v =>
+    dsimp only
+    rw [C08.nestList_eq _ _ hne]
+    simp only [C08.nestPath, C07.strToDict, Bool.false_eq_true, if_false, Option.map_some, idx, List.map_cons, outRelX]
+    rw [absE_singleton lf ls names hn, single_07_range _ _ hk0,
+      nestPath_08_07 lf ls names hn r v (fun k' hk' => hk k' (by simp [hk']))]
+    rfl
+  | none =>
+    cases r with
+    | nil => simp [C08.nestList, C07.strToDict, idx, outRelX]
+    | cons k1 r' =>
+      dsimp only
+      have hne' : (k0 :: k1 :: r').dropLast ≠ [] := by simp [List.dropLast]
+      rw [C08.nestList_eq _ _ hne']
+      have hd : (k0 :: k1 :: r').dropLast = k0 :: (k1 :: r').dropLast := by simp [List.dropLast]
+      rw [hd]
+      simp only [C08.nestPath, C07.strToDict, Bool.false_eq_true, if_false, Option.map_none, idx, List.map_cons, outRelX]
+      rw [absE_singleton lf ls names hn, single_07_range _ _ hk0]
+      have hsub : ∀ k ∈ (k1 :: r').dropLast, k ∈ names := fun k hk' =>
+        hk k (by
+          have := List.dropLast_subset (k1 :: r') hk'
+          simp at this ⊢; exact Or.inr this)
+      have := nestPath_08_07 lf ls names hn (k1 :: r').dropLast
+        (.leaf (.str ((k0 :: k1 :: r').getLastD ""))) hsub
+      rw [this, absV_leaf]
+      have e2 := idx_dropLast names (k1 :: r')
+      simp only [idx, List.map_cons] at e2
+      rw [e2]
+      rfl
+
+/-- **str_to_dict, C08 ↔ C07** (the empty string): `{}` without a value, `LenaValueError` with one -/
+theorem strToDict_empty_08_07 (ks : List Nat) (last : β) (value : Option C08.Val) :
+    outRelX lf ls names (C08.strToDict "" value)
+      (C07.strToDict names.length true ks last (value.map (absV lf ls names))) := by
+  cases value <;> simp [C08.strToDict, C07.strToDict, outRelX, absE_nil]
+
+/-- **update_recursively with a string, C08 ↔ C07**: `update_recursively(d, "k1.k2…", value)` — C08's
+`updateRecursively` with `UpdOther.str` against C07Ext's `updateRecursivelyX` with `Other.str` on the slot
+numbers: the same outcome (updated dictionary in the slot view / `LenaValueError` / `LenaTypeError` for a `d`
+that is not a dictionary), for every value without a repeated key -/
+theorem updateRecursivelyStr_08_07 (hn : names.Nodup) (p : List String) (hne : p ≠ []) (hw : C08.WFPath p)
+    (hk : ∀ k ∈ p, k ∈ names) (d : C08.Val) (value : Option C08.Val) (hv : ∀ v, value = some v → v.WF) :
+    outRelX lf ls names (C08.updateRecursively d (.str (C08.joinDots p)) value)
+      (C07.updateRecursivelyX names.length (absV lf ls names d)
+        (.str false (idx names p) (lf (.str (p.getLastD "")))) (value.map (absV lf ls names))) := by
+  have h := strToDict_08_07 lf ls names hn p hne hw hk value
+  have hwf : ∀ es, C08.strToDict (C08.joinDots p) value = .ok (.dict es) → C08.EntriesWF es := by
+    intro es he
+    unfold C08.strToDict at he
+    rw [if_neg (C08.joinDots_ne_empty _ hne hw)] at he
+    simp only at he
+    rw [C08.splitDots_joinDots _ hne (fun k hk' => (hw k hk').2)] at he
+    have nestWF : ∀ (q : List String) (x : C08.Val), x.WF → (C08.nestPath q x).WF := by
+      intro q
+      induction q with
+      | nil => intro x hx; simpa [C08.nestPath] using hx
+      | cons k q ih => intro x hx; simp [C08.nestPath, C08.Val.WF, C08.EntriesWF, C08.lookup, ih x hx]
+    cases value with
+    | some v =>
+      dsimp only at he
+      rw [C08.nestList_eq _ _ hne] at he
+      have := nestWF p v (hv v rfl)
+      rw [Except.ok.injEq] at he
+      rw [he] at this; exact this
+    | none =>
+      dsimp only at he
+      by_cases hd : p.dropLast = []
+      · rw [hd] at he; simp [C08.nestList] at he
+      · rw [C08.nestList_eq _ _ hd] at he
+        have := nestWF p.dropLast (.leaf (.str (p.getLastD ""))) (by simp [C08.Val.WF])
+        rw [Except.ok.injEq] at he
+        rw [he] at this; exact this
+  unfold C08.updateRecursively C07.updateRecursivelyX
+  simp only
+  cases h8 : C08.strToDict (C08.joinDots p) value with
+  | error e =>
+    rw [h8] at h
+    cases h7 : C07.strToDict names.length false (idx names p) (lf (.str (p.getLastD ""))) (value.map (absV lf ls names)) with
+    | ok l => rw [h7] at h; cases e <;> simp [outRelX] at h
+    | lenaTypeError => rw [h7] at h; cases e <;> simp_all [outRelX]
+    | lenaValueError => rw [h7] at h; cases e <;> simp_all [outRelX]
+    | typeError => rw [h7] at h; cases e <;> simp [outRelX] at h
+  | ok o =>
+    rw [h8] at h
+    cases o with
+    | leaf a => simp [outRelX] at h
+    | list xs => simp [outRelX] at h
+    | dict oe =>
+      cases h7 : C07.strToDict names.length false (idx names p) (lf (.str (p.getLastD ""))) (value.map (absV lf ls names)) with
+      | ok l =>
+        rw [h7] at h
+        simp only [outRelX] at h
+        subst h
+        cases d with
+        | leaf a => simp [absV_leaf, outRelX]
+        | list xs => simp [absV_list, outRelX]
+        | dict de =>
+          simp only [absV_dict, outRelX]
+          exact (updRec_08_07 lf ls names de oe (hwf oe h8)).symm
+      | lenaTypeError => rw [h7] at h; simp [outRelX] at h
+      | lenaValueError => rw [h7] at h; simp [outRelX] at h
+      | typeError => rw [h7] at h; simp [outRelX] at h
+
+example : outRelX leaf13 (fun _ => C13.Leaf.bad) ["a", "b"]
+    (C08.strToDict (C08.joinDots ["a", "b"]) (some (.leaf (.int 5))))
+    (C07.strToDict 2 false [0, 1] (.str "b") (some (.leaf (.int 5)))) := by
+  have := strToDict_08_07 leaf13 (fun _ => C13.Leaf.bad) ["a", "b"] (by decide) ["a", "b"] (by simp)
+    (by intro k hk; simp at hk; rcases hk with rfl | rfl <;> decide) (by simp) (some (.leaf (.int 5)))
+  simpa [idx, absV_leaf, leaf13] using this
+
+/-! ### corollaries -/
+
+/-- C07Ext's `str_to_dict_value` ("the value sits at the key path") read for C08's `str_to_dict` in the slot
+view; C08 proves the same in its own vocabulary (`get_of_str_to_dict`) -/
+theorem c08_str_to_dict_value (hn : names.Nodup) (p : List String) (hk : ∀ k ∈ p, k ∈ names) (v : C08.Val) :
+    getPath (absV lf ls names (C08.nestPath p v)) (idx names p) = some (absV lf ls names v) := by
+  rw [nestPath_08_07 lf ls names hn p v hk]
+  exact C07.getPath_chain names.length (idx names p) _
+
+/-- C07Ext's `getPath_chain` for C13's `single`: a formatting string reads back what `SetContext("k.ks", l)`
+wrote -/
+theorem c13_single_read (n k : Nat) (ks : List Nat) (l : C13.Leaf) (hk : k < n) (h : ∀ j ∈ ks, j < n) :
+    C13.getRec (C13.single n k ks l) (k :: ks) = .ok (.leaf l) := by
+  have h1 := getRec_13_path (k :: ks) (C13.single n k ks l)
+  rw [single_13_07 n ks k l hk h] at h1 ⊢
+  have h2 : getPath (.dict (C07.single n k (C07.chain n ks (.leaf l)))) (k :: ks) = some (.leaf l) := by
+    have := C07.getPath_chain n (k :: ks) (Val.leaf l)
+    rwa [C07.chain] at this
+  rw [h2] at h1
+  cases hr : C13.getRec (C07.single n k (C07.chain n ks (.leaf l))) (k :: ks) with
+  | ok w => rw [hr] at h1; simp [Except.toOption] at h1; rw [h1]
+  | error e => rw [hr] at h1; simp [Except.toOption] at h1
+
+end strToDict
 end Lena.Bridge.Context
